@@ -254,7 +254,12 @@ def run_case(case):
                         continue
                     ok_parts = 0
                     for i, part in zip(nonempty, parts):
-                        e_i = _expected(flat, np.arange(offs[i], offs[i + 1]), cols, index, meta_index, colnames)
+                        try:
+                            e_i = _expected(flat, np.arange(offs[i], offs[i + 1]), cols, index, meta_index, colnames)
+                        except ValueError:
+                            # pandas refuses this set_index (e.g. two int64 labels whose difference overflows): no expectation for this part
+                            counters["expectation_not_constructible"] = counters.get("expectation_not_constructible", 0) + 1
+                            continue
                         ci = e_i.index.names != [None] and not isinstance(e_i.index, pd.RangeIndex)
                         if not ci:
                             e_i = e_i.reset_index(drop=True)
